@@ -571,7 +571,7 @@ class ConfigTypeField(BaseField):
         self.config_type = config_type
 
     def __setdefault__(self, cfg: "Config") -> None:
-        cfg._set_default_value(self._key, self.config_type(cfg))
+        cfg._set_default_value(self._key, self(cfg))
 
     def __call__(self, cfg: Optional["Config"] = None) -> "ConfigType":
         """
@@ -580,7 +580,11 @@ class ConfigTypeField(BaseField):
         :param cfg: parent configuration
         :returns: the config type instance
         """
-        return self.config_type(cfg)
+        value = self.config_type(cfg)
+        if isinstance(value, Config):
+            # the wrapped type's own schema is not bound to a key: name the instance after this field
+            value._key = self._key
+        return value
 
 
 class Schema(BaseField):
